@@ -8,6 +8,12 @@
   interface: the hypotheses of the unconditional T2' of Thm/C11Impl.lean) the implementation's answer must equal
   the second reference semantics `## impl=` (`denoteImpl`: the last alternative continues into what follows the
   `)`, a trailing `[a-b]` means `[a]`).
+  ALSO under `hypi=1` the implementation's answer is compared with `## doc=` (`denoteDoc`, Spec/PatternSemDoc.lean:
+  `denoteImpl` with the DOCUMENTED, inclusive upper bound of every `[a-b]`): an input that needs exactly `b` skipped
+  bytes is accepted by the documentation and rejected by the scanner — reported ("documented upper bound of [a-b] is
+  not tried"); it is a recorded known finding (`known-findings.txt`, witness Thm/C11Doc.lean:
+  C11_doc_upper_bound_differs), matched there through the model's `docdiff=1 run=.. implok=1` tokens so that only
+  answers that agree with the model AND with `denoteImpl` are excused.
 * `pat_ref` (raw buffer): model only — the crate has no public API for raw buffers, the implementation answers
   `bad-op`.  Judged model-vs-specification under `hyp=1` (catches mistakes of the specification / theorem
   side), never a correspondence disagreement.
@@ -68,11 +74,24 @@ def against_both(who, ans, spec):
     return None
 
 
+DOC_WHAT = "the documented semantics with the documented (inclusive) upper bound of [a-b] (denoteDoc, Thm/C11Doc.lean)"
+
+
+def against_doc(who, ans, spec):
+    """hypi=1: the answer against `doc=` (the documentation's upper bound of `[a-b]` is inclusive)"""
+    if spec_field(spec, "hypi") != "1" or spec_field(spec, "doc") in (None, "-"):
+        return None
+    r = against_spec(who, ans, spec, "doc", DOC_WHAT)
+    if r:
+        return "documented upper bound of [a-b] is not tried: " + r
+    return None
+
+
 class C11(Prop):
     pid = "C11"
     title = "pattern strings mean what the syntax documentation says"
-    thm_modules = ["PeliteModel.Thm.C11", "PeliteModel.Thm.C11Parse", "PeliteModel.Thm.C11Frame", "PeliteModel.Thm.C11Impl"]
-    gens = gen_patsem.SEM_GENS + props_pattern.PARSE_GENS + gen_patsem.OUTSIDE_GENS
+    thm_modules = ["PeliteModel.Thm.C11", "PeliteModel.Thm.C11Parse", "PeliteModel.Thm.C11Frame", "PeliteModel.Thm.C11Impl", "PeliteModel.Thm.C11Doc", "PeliteModel.Thm.C11Grammar", "PeliteModel.Thm.Witnesses64"]
+    gens = gen_patsem.SEM_GENS + props_pattern.PARSE_GENS + gen_patsem.OUTSIDE_GENS + gen_patsem.DOC_GENS
     named_errors = set()     # the statement names no parse error kind: errors agree by class
 
     def judge(self, op, impl, model, spec):
@@ -91,7 +110,7 @@ class C11(Prop):
         if op.startswith("pat_parse"):
             return props_pattern.judge_parse(op, impl, model)
         if op.startswith("pat_sem"):
-            return against_both("the scanner", impl, spec)
+            return against_both("the scanner", impl, spec) or against_doc("the scanner", impl, spec)
         return None
 
     def nontrivial(self, op, impl):
